@@ -92,7 +92,13 @@ def structured_program(rng, org, rst=False):
     # main: per routine [XOR A (Z set); CALL NZ/JP NZ cold_k (not taken)]; CALL hot_k, directly or through a JP (HL)
     # trampoline (an executed routine that no instruction in the range refers to); RET; trampoline
     indirect = [rng.random() < 0.4 for _ in range(nhot)]
-    main_len = sum((4 if cold[k] is not None else 0) + (6 if indirect[k] else 3) for k in range(nhot)) + 2
+    # optionally a last cold block behind everything else (referenced, never executed) that ends with a block-ending
+    # instruction of one or more bytes: with the image placed flush against 64K it is the last block of memory
+    end_cold = None
+    if rng.random() < 0.35:
+        end_cold = [rng.choice(filler) for _ in range(rng.randint(0, 3))] + rng.choice([[0x18, rng.randrange(256)], [0xC3, rng.randrange(256), rng.randrange(256)],
+                                                                                        [0xED, 0x45], [0xDD, 0xE9], [0xC9], [0xED, 0x4D], [0xFD, 0xE9]])
+    main_len = sum((4 if cold[k] is not None else 0) + (6 if indirect[k] else 3) for k in range(nhot)) + 2 + (4 if end_cold else 0)
     tramp = org + main_len - 1
     addr = org + main_len
     cold_at, hot_at = [], []
@@ -112,6 +118,8 @@ def structured_program(rng, org, rst=False):
             out += [0x21, hot_at[k] & 0xFF, hot_at[k] >> 8, 0xCD, tramp & 0xFF, tramp >> 8]
         else:
             out += [0xCD, hot_at[k] & 0xFF, hot_at[k] >> 8]
+    if end_cold:
+        out += [0xAF, rng.choice([0xC4, 0xC2]), addr & 0xFF, addr >> 8]       # addr: first address behind the last hot routine
     out += [0xC9, 0xE9]
     main_len = len(out)
     for k in range(nhot):
@@ -119,6 +127,9 @@ def structured_program(rng, org, rst=False):
             out += cold[k]
         out += hot[k]
     tail = [rng.randrange(256) for _ in range(rng.randint(0, 12))]
+    if end_cold:
+        out += end_cold
+        tail = []
     # the addresses an execution visits when every call is made and RST 8 returns behind its argument byte
     walk = []
     a = org
@@ -132,6 +143,9 @@ def structured_program(rng, org, rst=False):
         else:
             walk.append(a)
             a += 3
+    if end_cold:
+        walk += [a, a + 1]
+        a += 4
     walk += [a, a + 1]
     for k in range(nhot):
         a = hot_at[k]
@@ -151,6 +165,11 @@ def make_case(rng):
     with_rst = False
     if structured:
         with_rst = rng.random() < 0.35
+        if top:
+            state = rng.getstate()
+            prog, main_len, walk = structured_program(rng, org, with_rst)
+            org = 65536 - len(prog)            # the same program again (same draws), flush against the top of memory
+            rng.setstate(state)
         prog, main_len, walk = structured_program(rng, org, with_rst)
         if len(prog) <= 65536 - org:
             data = prog
